@@ -34,25 +34,31 @@ def one_run(case, garbage):
     else:
         data = vals
         src_mask = fm.Mask.NONE
+    # linear: the target mask is given to the adapter (out_mask), the consumer is flexible;
+    # nearest: the consumer demands the mask
+    via_adapter = c["kind"] == "linear" and c["tm"]
     ada = (fm.adapters.RegridNearest() if c["kind"] == "nearest"
-           else fm.adapters.RegridLinear(fill_with_nearest=bool(c["fill"])))
+           else fm.adapters.RegridLinear(fill_with_nearest=bool(c["fill"]), out_mask=tmask if via_adapter else None))
     out, inp = fm.Output(name="Out"), fm.Input(name="In")
     out >> ada >> inp  # pylint: disable=expression-not-assigned
     inp.ping()
     out.push_info(fm.Info(time=day(0), grid=gs, units="m", mask=src_mask))
-    inp.exchange_info(fm.Info(time=day(0), grid=gd, units="m", mask=tmask if c["tm"] else fm.Mask.FLEX))
+    inp.exchange_info(fm.Info(time=day(0), grid=gd, units="m",
+                              mask=tmask if (c["tm"] and not via_adapter) else fm.Mask.FLEX))
     out.push_data(data, day(0))
     got = fm.data.get_magnitude(inp.pull_data(day(0)))[0, ...]
     mask = np.ma.getmaskarray(got).ravel()
     raw = np.ma.getdata(got).ravel()
     res = []
     for v, m in zip(raw, mask):
-        if m or not np.isfinite(v):
+        if m:
             res.append(-1)
+        elif not np.isfinite(v):
+            res.append(-3)          # an unmasked NaN is a delivered value, and a wrong one
         else:
             r = int(round(float(v)))
             res.append(r if abs(float(v) - r) < 1e-6 else -2)
-    return res, [bool(m) or not np.isfinite(v) for v, m in zip(raw, mask)]
+    return res, [bool(m) for m in mask]
 
 
 def run_case(case):
@@ -64,5 +70,5 @@ def run_case(case):
             v2, m2 = one_run(case, -123456.0)
             obs["iso"] = bool(v1 == v2 and m1 == m2)
     except Exception as e:  # pylint: disable=broad-except
-        obs["res"] = "err:" + type(e).__name__ + ":" + str(e)[:100]
+        obs["res"] = "err:" + type(e).__name__
     return {"case": case, "obs": obs}
